@@ -127,6 +127,19 @@ class MapT(Sort):
         return (self.k, self.v)
 
 
+class ArrT(Sort):
+    """total function K -> V (ghost state only, e.g. the position of a key in an ordered set)"""
+    def __init__(self, k, v):
+        self.k, self.v = k, v
+        self.name = 'Arr[%s,%s]' % (k, v)
+
+    def comps(self):
+        return [('', z3.ArraySort(zsort(self.k), zsort(self.v)))]
+
+    def key(self):
+        return (self.k, self.v)
+
+
 _tuple_sorts = {}
 
 
